@@ -155,3 +155,29 @@ pub proof fn lemma_token_parent(l: SpanLine, r: Option<Vec<CollectTokenItem>>, i
         l.span_queue.next_parent_id is Some ==> r->Some_0@[i].parent_id == l.span_queue.next_parent_id->Some_0,
         l.span_queue.next_parent_id is None ==> r->Some_0@[i].parent_id == l.collect_token->Some_0@[i].parent_id,
 {}
+
+// ---------------------------------------------------------------------------
+// C06, "attached to a span ... later through the span handle": a property added to a local span
+// that is still open is recorded whatever scope happens to be innermost at that moment.  NOT
+// PROVABLE, and rightly so: LocalSpanStack::with_properties only looks at the innermost scope; if a
+// nested scope (LocalCollector::start, set_local_parent, the per-poll scope of in_span) is open, the
+// handle's epoch does not match and the proved postcondition `inert_when_not_recording` says the
+// stack is unchanged -- the property is dropped, although guards are released in perfect LIFO order
+// (findings/hunt/E/outer_local_span_property_in_nested_scope.rs; with debug assertions the call
+// trips debug_assert_eq!(span_line_epoch) and aborts in the destructor).  Known finding D15.
+// ---------------------------------------------------------------------------
+pub open spec fn stack_with_properties_post(o: LocalSpanStack, n: LocalSpanStack, h: LocalSpanHandle) -> bool {
+    // the contract proved for LocalSpanStack::with_properties (clause inert_when_not_recording)
+    !(o.lines().last().is_sampled && o.lines().last().epoch == h.span_line_epoch) ==> n.unchanged(o)
+}
+
+pub proof fn thm_c06_property_added_to_an_open_local_span_is_recorded_under_a_nested_scope(o: LocalSpanStack, n: LocalSpanStack, h: LocalSpanHandle, i: int)
+    requires
+        o.lines().len() >= 2, 0 <= i < o.lines().len() - 1,
+        o.lines()[i].epoch == h.span_line_epoch, o.lines()[i].is_sampled,          // the span's own scope, not the innermost one
+        o.lines().last().epoch != h.span_line_epoch,
+        stack_with_properties_post(o, n, h),
+    ensures
+        n.lines().len() == o.lines().len() && n.lines()[i] != o.lines()[i],         // something was recorded in the span's scope
+{
+}
